@@ -34,3 +34,9 @@ Definition run_case (root : itree) (m : nsmap) (e : xpath_expr) (ctx : npath) : 
   let D := docnode root in
   run_subset root m e ctx ++ run_eval root m e ctx ++ run_ref false root m e ctx ++ run_ref true root m e ctx
   ++ match eval D m e (nd_at D ctx) with Ok l => enc_res (in_document_order l) | _ => [9%N] end.
+
+(* C14 *)
+From Delb.XPath Require Import AstEnc LocPath.
+Definition run_locpath (root : itree) (p : npath) : list N := enc_expr (location_path root p).
+Definition run_locpath_eval (root : itree) (m : nsmap) (p ctx : npath) : list N :=
+  run_eval root m (location_path root p) ctx.
